@@ -460,6 +460,54 @@ func init() {
 					}
 					judgeProgram(c, []model.Stmt{model.Text{S: "s|"}, each, model.Text{S: "|e"}}, data, "non-array", false)
 				}})
+			// (7b) loops inside the files of a template tree (slot body, insert block, component file, layout, component in a loop):
+			// they render their passes there as anywhere else, and a loop over a non-array fails the render from there too
+			treePlaces := 6
+			secs = append(secs, core.Section{Name: "loops-in-template-trees", Exhaustive: true, N: len(kindSamples) * treePlaces,
+				Run: func(c *core.Ctx, i int) {
+					place := i % treePlaces
+					v := kindSamples[i/treePlaces]
+					data := map[string]model.Value{"h": v, "ok": model.Arr(model.Int(1), model.Int(2))}
+					loops := []model.Stmt{model.Text{S: "a|"},
+						model.Each{Var: "w", Arr: model.Var{Name: "ok"}, Body: []model.Stmt{model.Print{E: loopField("iter")}, model.ContinueIf{E: loopField("first")}, model.Text{S: "."}}},
+						model.Each{Var: "v", Arr: model.Var{Name: "h"}, Body: []model.Stmt{model.Text{S: "[x]"}}, Else: []model.Stmt{model.Text{S: "none"}}}, model.Text{S: "|b"}}
+					t := newTree("c03tree", ".tw")
+					switch place {
+					case 0: // slot body
+						t.files["components/box"] = []model.Stmt{model.Text{S: "<box>"}, model.SlotRef{Name: ""}, model.Text{S: "</box>"}}
+						t.files["page"] = []model.Stmt{model.Text{S: "p:"}, model.Component{Name: "~box", Slots: []model.SlotBody{{Name: "", Body: loops}}}, model.Text{S: ":q"}}
+					case 1: // named slot body next to a default one
+						t.files["components/box"] = []model.Stmt{model.Text{S: "<box>"}, model.SlotRef{Name: ""}, model.Text{S: "|"}, model.SlotRef{Name: "foot"}, model.Text{S: "</box>"}}
+						t.files["page"] = []model.Stmt{model.Text{S: "p:"}, model.Component{Name: "~box", Slots: []model.SlotBody{{Name: "", Body: []model.Stmt{model.Text{S: "fine"}}}, {Name: "foot", Body: loops}}}, model.Text{S: ":q"}}
+					case 2: // insert block
+						t.files["layouts/main"] = []model.Stmt{model.Text{S: "<html>"}, model.Reserve{Name: "body"}, model.Text{S: "</html>"}}
+						t.files["page"] = []model.Stmt{model.Use{Name: "~main"}, model.Insert{Name: "body", Block: loops}}
+					case 3: // component file
+						t.files["components/box"] = append(append([]model.Stmt{model.Text{S: "<box>"}}, loops...), model.Text{S: "</box>"})
+						t.files["page"] = []model.Stmt{model.Text{S: "p:"}, model.Component{Name: "~box"}, model.Text{S: ":q"}}
+					case 4: // layout
+						t.files["layouts/main"] = append(append([]model.Stmt{model.Text{S: "<html>"}}, loops...), model.Reserve{Name: "body"}, model.Text{S: "</html>"})
+						t.files["page"] = []model.Stmt{model.Use{Name: "~main"}, model.Insert{Name: "body", E: model.Lit{V: model.Str("B")}}}
+					default: // a component used in every pass of a loop of the page, its slot body holding the loops
+						t.files["components/box"] = []model.Stmt{model.Text{S: "<box>"}, model.SlotRef{Name: ""}, model.Text{S: "</box>"}}
+						t.files["page"] = []model.Stmt{model.Each{Var: "o", Arr: model.Var{Name: "ok"}, Body: []model.Stmt{model.Component{Name: "~box", Slots: []model.SlotBody{{Name: "", Body: loops}}}}}}
+					}
+					files := t.sources(model.Style{Layout: model.SpaceLayout})
+					tpl, err := loadTree(c, "c03tree", files, ".tw")
+					c.Nontrivial(fmt.Sprint(files, model.DescribeData(data)))
+					if err != nil {
+						c.Violation("in-tree:load-failed", err.Error(), map[string]any{"files": describeFiles(files)})
+						return
+					}
+					if tpl == nil {
+						return
+					}
+					exp := t.expectPage("page", data)
+					got, _ := renderPage(c, tpl, "page", model.NativeData(data))
+					if why := compare(exp, got, false, nil); why != "" {
+						c.Violation(fmt.Sprintf("in-tree:%d", place), why, map[string]any{"files": describeFiles(files), "data": model.DescribeData(data), "expected": expectText(exp)})
+					}
+				}})
 			// (8) seeded random loop programs
 			n, depth := 8000, 3
 			if tier == core.Thorough {
